@@ -512,7 +512,7 @@ let mut r9_out: Vec<BoxedFactory> = Vec::new(); let mut r9_n: usize = 0; while r
 //@loop head="while r9_n < self.services.len()"
         invariant r9_n <= self.services@.len(), r9_out@.len() == r9_n,
         decreases self.services@.len() - r9_n,
-//@loop head="while r9_k < self.worker_handles.len() && !r9_found"
+//@loop head="while r9_k < self.worker_handles.len() && !r9_found" optional
         invariant
             r9_k <= self.worker_handles@.len(),
             r9_found ==> r9_k < self.worker_handles@.len() && self.worker_handles@[r9_k as int].idx == idx,
